@@ -9,7 +9,7 @@ pub use crate::rewriter::{
     verif_parse_js_comments as parse_js_comments, Config,
     OriginalSourceMap, RewrittenOutput,
 };
-pub use crate::util::{file_name, FileReader};
+pub use crate::util::{file_name, DefaultFileReader, FileReader};
 pub use crate::visitor::literal_visitor::LiteralsResult;
 
 thread_local! {
